@@ -21,6 +21,11 @@ def FinH (H : List Op) (s : Nat) : Prop := Op.final s ∈ H
 def FastH (H : List Op) (b : Nat × Nat) : Prop := Op.fastFinal b ∈ H
 def LinkH (H : List Op) (c p : Nat × Nat) : Prop := Op.parent c p ∈ H
 
+instance (H : List Op) (b : Nat × Nat) : Decidable (NotarH H b) := by unfold NotarH; infer_instance
+instance (H : List Op) (s : Nat) : Decidable (FinH H s) := by unfold FinH; infer_instance
+instance (H : List Op) (b : Nat × Nat) : Decidable (FastH H b) := by unfold FastH; infer_instance
+instance (H : List Op) (c p : Nat × Nat) : Decidable (LinkH H c p) := by unfold LinkH; infer_instance
+
 /-- directly finalized: fast-finalization, or finalization of the slot + notarization of the block -/
 def Direct (H : List Op) (b : Nat × Nat) : Prop := FastH H b ∨ (FinH H b.1 ∧ NotarH H b)
 
